@@ -331,8 +331,8 @@ PROPS = {
         gen_timeout=3000,
         gates=["sweep.stack", "sweep.foreach_in_callee", "fmt.json", "fmt.yaml", "fmt.deep", "parse.ok", "parse.err", "compile.ok", "model.applies",
                "compile.err.ENoMain", "compile.err.EBadFunctionName", "compile.err.EBadImport", "compile.err.EInvalidJump",
-               "compile.err.EEmptyVariable", "compile.err.ETooManyLocals", "compile.err.ETooManyUpvalues",
-               "compile.err.ERecursionLimitReached", "compile.err.EDuplicateModule", "compile.err.ESuperLimitReached",
+               "compile.err.EEmptyVariable", "compile.err.ETooManyLocals",
+               "compile.err.ERecursionLimitReached", "compile.err.ESuperLimitReached",
                "run.ok", "run.err.Timeout", "run.err.Stackoverflow", "run.err.CallStackOverflow", "run.err.OutOfMemory",
                "run.err.MissingArgument", "run.err.InvalidArgument", "run.err.ProcedureNotFound",
                "cfg.stack=1", "cfg.stack=2", "cfg.calls=1", "cfg.calls=2", "cfg.mem<=64", "cfg.budget=0", "cfg.budget=1",
